@@ -40,6 +40,15 @@ func (m *machine) lateGlobal(g *ssa.Global, p ptr) {
 	p.own.uninit = true
 }
 
+func (m *machine) namedExtErr(name string) *extErr {
+	if e, ok := m.extErrs[name]; ok {
+		return e
+	}
+	e := &extErr{name: name}
+	m.extErrs[name] = e
+	return e
+}
+
 func pkgPathOf(fn *ssa.Function) string {
 	if fn.Pkg != nil {
 		return fn.Pkg.Pkg.Path()
@@ -64,10 +73,19 @@ func (m *machine) tryIntrinsic(th *thread, caller *frame, fn *ssa.Function, args
 		return h(th, caller, fn, args, site), true
 	}
 	pp := pkgPathOf(fn)
+	if fn.Blocks == nil && strings.HasPrefix(fn.Name(), "runtime_") {
+		return zeroResult(m, fn), true
+	}
 	switch pp {
 	case "syscall":
 		if r, ok := m.redirect(th, caller, "vk_"+fn.Name(), fn, args, site); ok {
 			return r, true
+		}
+		switch fn.Name() {
+		case "Getrlimit", "Setrlimit":
+			return iface{t: m.extErrType, v: m.namedExtErr("syscall." + fn.Name() + " not modelled")}, true
+		case "Getpagesize":
+			return mkInt(4096), true
 		}
 	case "os":
 		if recv := fn.Signature.Recv(); recv != nil && strings.Contains(recv.Type().String(), "os.File") {
